@@ -16,18 +16,22 @@ from fractions import Fraction
 from common import Ctx, driver_json, frac_str
 
 PROPERTY = "C20"
-LEAN_MODULES = ["Proofs.C20", "Proofs.C20.Returns", "Proofs.C20.Stats"]
+LEAN_MODULES = ["Proofs.C20", "Proofs.C20.Returns", "Proofs.C20.Stats", "Proofs.C20.Perf"]
 DRIVERS = ["driver_metrics"]
 RULE = ("positive net-value series of length 2..2000 (1..3 and empty in the malformed stream) from nine shape generators (random walk, rising, "
         "falling, constant, V, late-peak where the largest absolute and the largest relative decline differ, two-scale, ties on a coarse "
         "grid, integers), six sampling intervals (1 min .. 7 d), benchmarks, plus a malformed stream (zeros, negatives, zero duration/interval, "
-        "length mismatch); bucket = (function, shape, length class, outcome class, where the drawdown sits / which input form)")
+        "length mismatch, an index with coinciding / decreasing stamps); performance_metrics is called with rf given, rf = 0 and rf left to its default, with and "
+        "without benchmark, on regular (date_range) and irregular (random increasing gaps) indexes; fixed cases where the APR's pow overflows (minute index) "
+        "while beta stays finite; bucket = (function, shape, length class, outcome class, where the drawdown sits / which input form / index kind, rf kind)")
 TRUSTED = [
     "theorems are about the exact-rational semantics of the formulas and of the max-drawdown scan; float rounding of numpy/pandas is measured "
     "(1e-9 relative against the exact model fed with the floats' exact values), not proved",
     "sqrt and pow are oracle parameters in the theorems; the driver evaluates them with Lean Float (libm pow, IEEE sqrt)",
     "pandas Series.std/pct_change/shift/prod and numpy.cov are assumed to implement their documented formulas (the oracle recomputes them "
     "from the definitions on every case)",
+    "beta is recomputed (covariance ratio, exact) and compared whenever both return variances are non-degenerate, also when an APR overflows; alpha only "
+    "when both APRs are finite (otherwise it must be nan/inf)",
     "tolerances: 1e-9 relative; for quantities formed by a cancelling subtraction (rate = multiple - 1, total return and APR = gross - 1, Sharpe "
     "numerator, alpha) 1e-9 of the operands' magnitude (1 for returns); series whose return variance is below 1e-12 of the squared mean are compared by outcome class only",
 ]
@@ -222,7 +226,9 @@ def fpow(b: Fraction, e: Fraction):
 
 
 def scales(xs, bs, interval_d, d, rf):
-    """magnitudes against which the cancelling quantities are compared; None when a return variance is degenerate"""
+    """magnitudes against which the cancelling quantities are compared, per field; None when a return variance is degenerate.  A field is
+    missing when an APR it is formed from overflows (annualized, sharpe, alpha / benchApr, alpha); volatility and beta never depend on an
+    APR, so they are present whenever the variances are not degenerate"""
     fx = [Fraction(v) for v in xs]
     p = [fx[k] / fx[k - 1] for k in range(1, len(fx))]
     if degenerate(p):
@@ -230,21 +236,22 @@ def scales(xs, bs, interval_d, d, rf):
     e = Fraction(365) / Fraction(d)
     vol = fsqrt(svar(p)) * fsqrt(Fraction(365) / Fraction(interval_d))
     apy_p = fpow(fx[-1] / fx[0], e) - 1
-    if not fin(apy_p):
-        return None
-    out = {"mdd": 0, "volatility": 0, "returnRate": 1, "annualized": 1 + abs(apy_p), "benchRate": 1,
-           "sharpe": (1 + abs(apy_p) + abs(rf)) / vol}
+    out = {"mdd": 0, "volatility": 0, "returnRate": 1, "benchRate": 1}
+    if fin(apy_p):
+        out.update({"annualized": 1 + abs(apy_p), "sharpe": (1 + abs(apy_p) + abs(rf)) / vol})
     if bs is not None:
         fb = [Fraction(v) for v in bs]
         q = [fb[k] / fb[k - 1] for k in range(1, len(fb))]
         if degenerate(q):
             return None
         apy_b = fpow(fb[-1] / fb[0], e) - 1
-        if not fin(apy_b):
-            return None
         sc = fsqrt(svar(p) / svar(q))
         beta = abs(float(scov(p, q) / svar(q)))
-        out.update({"beta": sc, "benchApr": 1 + abs(apy_b), "alpha": (1 + abs(apy_p)) + (beta + sc) * (1 + abs(apy_b))})
+        out["beta"] = sc
+        if fin(apy_b):
+            out["benchApr"] = 1 + abs(apy_b)
+        if fin(apy_p) and fin(apy_b):
+            out["alpha"] = (1 + abs(apy_p)) + (beta + sc) * (1 + abs(apy_b))
     return out
 
 
@@ -455,15 +462,23 @@ def check_stats(ctx, case, batch):
                     if r_sh[0] != "ok" or not close(r_sh[1], Fraction(sh), (1 + abs(apy_p) + abs(rf)) / vol):
                         ctx.violate("sharpe_ratio.recompute", f"sharpe_ratio = {r_sh}, (APR - rf)/volatility = {sh!r}", case)
                     ctx.dev(Fraction(r_sh[1]), Fraction(sh)) if r_sh[0] == "ok" and abs(sh) > 1e-3 else None
-            if not degp and not degq and fin(apy_p) and fin(apy_b):
+            if not degp and not degq:
+                # beta is a ratio of (co)variances of the return series: it is checked whenever the variances are not degenerate,
+                # whether or not an APR overflows (the code computes it before the APRs)
                 beta = scov(p, q) / svar(q)
-                alpha = Fraction(apy_p) - beta * Fraction(apy_b)
                 sc = fsqrt(svar(p) / svar(q))
-                if r_ab[0] != "ok" or not close(r_ab[1][1], beta, sc) or not close(r_ab[1][0], alpha, (1 + abs(apy_p)) + (abs(beta) + sc) * (1 + abs(apy_b))):
-                    ctx.violate("alpha_beta.recompute", f"alpha_beta = {r_ab}, direct (alpha, beta) = ({float(alpha)!r}, {float(beta)!r})", case)
+                if fin(apy_p) and fin(apy_b):
+                    alpha = Fraction(apy_p) - beta * Fraction(apy_b)
+                    if r_ab[0] != "ok" or not close(r_ab[1][1], beta, sc) or not close(r_ab[1][0], alpha, (1 + abs(apy_p)) + (abs(beta) + sc) * (1 + abs(apy_b))):
+                        ctx.violate("alpha_beta.recompute", f"alpha_beta = {r_ab}, direct (alpha, beta) = ({float(alpha)!r}, {float(beta)!r})", case)
+                else:
+                    kind = "regular-apr-overflow"
+                    if r_ab[1] is None or not fin(r_ab[1][1]) or not close(r_ab[1][1], beta, sc):
+                        ctx.violate("alpha_beta.beta-recompute", f"alpha_beta = {r_ab} (an APR overflows), direct beta = cov/var = {float(beta)!r}", case)
+                    if r_ab[1] is None or fin(r_ab[1][0]):
+                        ctx.violate("alpha_beta.recompute", f"alpha_beta = {r_ab}: alpha is finite although an APR (portfolio {apy_p!r}, benchmark {apy_b!r}) is not", case)
     ctx.case(f"stats:{shape}:{lenclass(len(xs))}:{kind}:{r_vol[0]}/{r_sh[0]}/{r_ab[0]}", case)
-    sc = scales(xs, bs, interval, d, rf) if kind == "regular" else None
-    numeric = sc is not None
+    sc = scales(xs, bs, interval, d, rf) if kind.startswith("regular") else None
 
     def cmp(name, impl, ans, fld):
         if ans["outcome"] != impl[0]:
@@ -471,7 +486,7 @@ def check_stats(ctx, case, batch):
                 ctx.count("degenerate_variance_class_differs")   # exact variance 0 vs float variance 1e-34 (or the reverse)
                 return
             ctx.disagree(f"{name}: impl {impl} model {ans['outcome']}", case)
-        elif impl[0] == "ok" and numeric and not close(impl[1], Fraction(ans["value"]), sc[fld]):
+        elif impl[0] == "ok" and sc is not None and fld in sc and not close(impl[1], Fraction(ans["value"]), sc[fld]):
             ctx.disagree(f"{name}: impl {impl[1]!r} model {float(Fraction(ans['value']))!r}", case)
 
     rl = [float(v) for v in rets]
@@ -487,10 +502,17 @@ def check_stats(ctx, case, batch):
                     ctx.count("degenerate_variance_class_differs")
                     return
                 ctx.disagree(f"alpha_beta: impl {r_ab} model {ans['outcome']}", case)
-            elif r_ab[0] == "ok" and numeric:
-                be, al = Fraction(ans["beta"]), Fraction(ans["alpha"])
-                if not close(r_ab[1][1], be, sc["beta"]) or not close(r_ab[1][0], al, sc["alpha"]):
-                    ctx.disagree(f"alpha_beta: impl {r_ab[1]} model ({float(al)!r}, {float(be)!r})", case)
+            elif r_ab[1] is not None:
+                # the two components separately: finite / nan-inf class, and the value where the comparison is meaningful
+                for k, name in ((1, "beta"), (0, "alpha")):
+                    ic, mc = fin(r_ab[1][k]), ans[name] != "nonfinite"
+                    if ic != mc:
+                        if kind == "degenerate":
+                            ctx.count("degenerate_variance_class_differs")
+                        else:
+                            ctx.disagree(f"alpha_beta {name}: impl {r_ab[1][k]!r} model {ans[name][:40]}", case)
+                    elif ic and sc is not None and name in sc and not close(r_ab[1][k], Fraction(ans[name]), sc[name]):
+                        ctx.disagree(f"alpha_beta {name}: impl {r_ab[1][k]!r} model {float(Fraction(ans[name]))!r}", case)
         batch.add({"fn": "alphabeta", "values": [fs(v) for v in xs], "bench": [fs(v) for v in bs], "duration": fs(d)}, h_ab)
 
 
@@ -507,9 +529,16 @@ def check_perf(ctx, case, batch):
     xs = [float(v) for v in case["xs"]]
     bs = [float(v) for v in case["bench"]] if case.get("bench") is not None else None
     sec = int(case["interval_s"])
-    rf = float(case["rf"])
+    # rf None: performance_metrics is called without the argument (documented default 0.03, written here independently of the source)
+    rf_default = case.get("rf") is None
+    rf = 0.03 if rf_default else float(case["rf"])
     shape = case.get("shape", "replay")
-    idx = pd.date_range("2023-01-01", periods=len(xs), freq=pd.Timedelta(seconds=sec))
+    # index: regular (date_range) or, with "times" (offsets in seconds from the start), any increasing index
+    offs = [int(t) for t in case["times"]] if case.get("times") is not None else None
+    if offs is None:
+        idx = pd.date_range("2023-01-01", periods=len(xs), freq=pd.Timedelta(seconds=sec))
+    else:
+        idx = pd.DatetimeIndex([pd.Timestamp("2023-01-01") + pd.Timedelta(seconds=o) for o in offs])
     as_dec = bool(case.get("decimal"))
     mk = (lambda v: [Decimal(repr(t)) for t in v]) if as_dec else (lambda v: v)
     s = pd.Series(mk(xs), index=idx, dtype=object if as_dec else float)
@@ -517,6 +546,8 @@ def check_perf(ctx, case, batch):
     out = {}
 
     def run():
+        if rf_default:
+            return performance_metrics(s, benchmark=b) if b is not None else performance_metrics(s)
         return performance_metrics(s, rf, b)
     with warnings.catch_warnings():
         warnings.simplefilter("ignore")
@@ -527,9 +558,13 @@ def check_perf(ctx, case, batch):
             except Exception as e:  # noqa: BLE001
                 res, oc = None, type(e).__name__
     n = len(xs)
-    interval_d = Fraction(sec, 86400)
-    d = interval_d * n
-    positive = n >= 2 and all(v > 0 for v in xs) and (bs is None or (len(bs) == n and all(v > 0 for v in bs)))
+    # interval = first gap of the index, duration = last - first + first gap (n * interval on a regular index)
+    gap = sec if offs is None or n < 2 else offs[1] - offs[0]
+    span = sec * n if offs is None or n < 2 else offs[-1] - offs[0] + gap
+    interval_d = Fraction(gap, 86400)
+    d = Fraction(span, 86400)
+    increasing = offs is None or all(a < b_ for a, b_ in zip(offs, offs[1:]))
+    positive = n >= 2 and increasing and all(v > 0 for v in xs) and (bs is None or (len(bs) == n and all(v > 0 for v in bs)))
     bad = False
     if oc == "ok":
         for fld, en in PERF_FIELDS:
@@ -540,7 +575,7 @@ def check_perf(ctx, case, batch):
             fx = [Fraction(v) for v in xs]
             dd, iv = float(d), float(interval_d)
             if float(res[MetricEnum.start_val]) != xs[0] or float(res[MetricEnum.end_val]) != xs[-1] or \
-                    res[MetricEnum.duration] != pd.Timedelta(seconds=sec * n) or float(res[MetricEnum.return_value]) != xs[-1] - xs[0]:
+                    res[MetricEnum.duration] != pd.Timedelta(seconds=span) or float(res[MetricEnum.return_value]) != xs[-1] - xs[0]:
                 ctx.violate("performance_metrics.endpoints", "start/end value, duration or return value are not those of the series", case)
                 bad = True
             with warnings.catch_warnings():
@@ -561,9 +596,18 @@ def check_perf(ctx, case, batch):
             sc = scales(xs, bs, interval_d, d, rf) if n >= 3 else None
             for fld, _ in PERF_FIELDS:
                 a, w = out[fld], direct[fld]
-                if a[0] != w[0] or (a[0] == "ok" and not close(a[1], w[1], sc[fld] if sc else abs(w[1]) * 1000)):
+                if a[0] != w[0] or (a[0] == "ok" and not close(a[1], w[1], sc[fld] if sc and fld in sc else abs(w[1]) * 1000)):
                     ctx.violate(f"performance_metrics.{fld}", f"performance_metrics reports {fld} = {a}, the metric function on the same series gives {w} "
-                                f"(interval {sec}s, duration {float(d)} d)", case)
+                                f"(interval {gap}s, duration {float(d)} d, rf {'default' if rf_default else rf})", case)
+                    bad = True
+            # beta from its definition, whenever the return variances are not degenerate (an overflowing APR does not touch it)
+            if sc and "beta" in sc:
+                p_ = [fx[k] / fx[k - 1] for k in range(1, n)]
+                fb = [Fraction(v) for v in bs]
+                q_ = [fb[k] / fb[k - 1] for k in range(1, n)]
+                beta_def = scov(p_, q_) / svar(q_)
+                if out["beta"][0] != "ok" or not close(out["beta"][1], beta_def, sc["beta"]):
+                    ctx.violate("performance_metrics.beta-def", f"reported beta {out['beta']} != cov(returns, benchmark returns)/var(benchmark returns) = {float(beta_def)!r}", case)
                     bad = True
             # definitions the entry must meet whatever the helper functions do
             spec, _, _ = mdd_def(xs)
@@ -575,7 +619,9 @@ def check_perf(ctx, case, batch):
                 bad = True
     elif positive:
         ctx.violate("performance_metrics.raises", f"performance_metrics raised {oc} on a positive series of length {n}", case)
-    ctx.case(f"perf:{shape}:{lenclass(n)}:{sec}s:{'bench' if bs is not None else 'nobench'}:{'dec' if as_dec else 'flt'}:{oc}:{'bad' if bad else 'ok'}", case)
+    ovf = ":apr-overflow" if oc == "ok" and positive and out["annualized"][0] == "nonfinite" else ""
+    ctx.case(f"perf:{shape}:{lenclass(n)}:{str(sec) + 's' if offs is None else 'irregular'}:rf={'default' if rf_default else 'zero' if rf == 0 else 'given'}:"
+             f"{'bench' if bs is not None else 'nobench'}:{'dec' if as_dec else 'flt'}:{oc}:{'bad' if bad else 'ok'}{ovf}", case)
 
     def h(ans):
         if ans["outcome"] != oc:
@@ -587,20 +633,22 @@ def check_perf(ctx, case, batch):
         for fld, _ in PERF_FIELDS:
             a, m = out[fld], ans[fld]
             mc = "nonfinite" if m == "nonfinite" else "ok"
-            soft = sc is None and fld in ("sharpe", "volatility", "alpha", "beta")
+            soft = sc is None and fld in ("sharpe", "volatility", "alpha", "beta")    # degenerate variance only; an overflowing APR is not
             if mc != a[0]:
                 if soft:
                     ctx.count("degenerate_variance_class_differs")
                     continue
                 ctx.disagree(f"perf {fld}: impl {a} model {m[:40]}", case)
             elif mc == "ok" and not soft:
-                scale = sc[fld] if sc else (0 if fld == "mdd" else 1 + abs(a[1]))
+                scale = sc[fld] if sc and fld in sc else (0 if fld == "mdd" else 1 + abs(a[1]))
                 if not close(a[1], Fraction(m), scale):
                     ctx.disagree(f"perf {fld}: impl {a[1]!r} model {float(Fraction(m))!r}", case)
     if all(fin(v) for v in xs) and (bs is None or all(fin(v) for v in bs)) and n >= 1:
         t0 = idx[0].value
-        req = {"fn": "perf", "values": [fs(v) for v in xs], "rf": fs(rf), "t0": str(t0),
+        req = {"fn": "perf", "values": [fs(v) for v in xs], "t0": str(t0),
                "t1": str(idx[1].value if n > 1 else t0), "tEnd": str(idx[-1].value)}
+        if not rf_default:
+            req["rf"] = fs(rf)      # without it the model takes the default it read from the source (Gen.metricsDefaultRiskFree)
         if bs is not None:
             req["bench"] = [fs(v) for v in bs]
         batch.add(req, h)
@@ -618,6 +666,25 @@ def fixed_cases():
         out.append({"fn": "mdd", "xs": [repr(float(v)) for v in xs], "shape": "fixed"})
     for xs, d in (([1, 1.1, 1.21], 365), ([1, 1.1, 1.2], 365), ([1, 1.1], 182.5), ([100, 100.1, 99.8, 99.5, 99.3, 99, 99.5, 99.8, 100, 100.3], 9)):
         out.append({"fn": "returns", "xs": [repr(float(v)) for v in xs], "d": repr(float(d)), "shape": "fixed", "dk": "fixed"})
+    # a minute index: the APR exponent 365/duration is ~1e5 and `pow` overflows to inf — alpha is inf, beta stays the finite covariance ratio
+    # (-0.0822…): the code computes beta before the APRs
+    ov_x, ov_b = [1, 1.01, 1, 1.02, 1.05], [2, 2.1, 2.3, 2.2, 2.4]
+    for sec in (60, 300):
+        out.append({"fn": "stats", "xs": [repr(float(v)) for v in ov_x], "bench": [repr(float(v)) for v in ov_b], "interval": repr(sec / 86400),
+                    "d": repr(5 * sec / 86400), "rf": "0.03", "shape": "fixed"})
+        for rf in ("0.03", None, "0.0"):
+            out.append({"fn": "perf", "xs": [repr(float(v)) for v in ov_x], "bench": [repr(float(v)) for v in ov_b], "interval_s": sec, "rf": rf, "shape": "fixed"})
+    # only the benchmark's APR overflows / only the portfolio's
+    out.append({"fn": "stats", "xs": ["1.0", "1.0000001", "1.0", "1.0000002", "1.0"], "bench": [repr(float(v)) for v in ov_b], "interval": repr(60 / 86400),
+                "d": repr(300 / 86400), "rf": "0.0", "shape": "fixed"})
+    out.append({"fn": "stats", "xs": [repr(float(v)) for v in ov_b], "bench": ["1.0", "1.0000001", "1.0", "1.0000002", "1.0"], "interval": repr(60 / 86400),
+                "d": repr(300 / 86400), "rf": "0.0", "shape": "fixed"})
+    # default arguments (no rf, no benchmark) and an irregular index on the repo's own test vector
+    tv = [100, 100.1, 99.8, 99.5, 99.3, 99, 99.5, 99.8, 100, 100.3]
+    out.append({"fn": "perf", "xs": [repr(float(v)) for v in tv], "bench": None, "interval_s": 86400, "rf": None, "shape": "fixed"})
+    out.append({"fn": "perf", "xs": [repr(float(v)) for v in tv], "bench": None, "interval_s": 86400, "rf": "0.0", "shape": "fixed"})
+    out.append({"fn": "perf", "xs": [repr(float(v)) for v in tv], "bench": [repr(float(v)) for v in reversed(tv)], "interval_s": 3600, "rf": None, "shape": "fixed",
+                "times": [0, 3600, 7200, 9000, 20000, 86400, 86401, 100000, 172800, 172860]})
     return out
 
 
@@ -641,6 +708,11 @@ def malformed_cases(rng):
     out.append({"fn": "perf", "xs": [repr(v) for v in good], "bench": [repr(v) for v in gb[:3]], "interval_s": 3600, "rf": "0.03", "shape": "malformed"})
     out.append({"fn": "perf", "xs": [repr(v) for v in good], "bench": [], "interval_s": 3600, "rf": "0.03", "shape": "malformed"})
     out.append({"fn": "perf", "xs": ["1.0", "1e308"], "bench": None, "interval_s": 60, "rf": "0.03", "shape": "malformed"})
+    # an index whose first two stamps coincide (interval 0), one that runs backwards, one whose span cancels the first gap (duration 0)
+    for times in ([0, 0, 60, 120, 180], [180, 120, 60, 30, 0], [0, 60, 30, 20, -60]):
+        for be in (None, gb):
+            out.append({"fn": "perf", "xs": [repr(v) for v in good], "bench": [repr(v) for v in be] if be else None, "interval_s": 60,
+                        "rf": "0.03" if be else None, "shape": "malformed", "times": times})
     return out
 
 
@@ -682,6 +754,23 @@ def random_cases(ctx):
         bs = gen_series(rng, "walk", n, sigma) if rng.random() < 0.6 else None
         out.append({"fn": "perf", "xs": [repr(v) for v in xs], "bench": [repr(v) for v in bs] if bs is not None else None, "interval_s": sec,
                     "rf": repr(rng.choice([0.03, 0.0])), "shape": shape, "decimal": rng.random() < 0.15})
+    # the same call with its defaults (no rf: 0.03; rf = 0 exactly; another rf) and on an irregular (increasing, gappy) index: interval = first
+    # gap, duration = span + first gap
+    for _ in range(ctx.scale(120, 1500)):
+        shape = rng.choice(["walk", "walk", "rising", "falling", "vshape"])
+        n = min(gen_len(rng, ctx.thorough), 120 if ctx.thorough else 50)
+        name, sec = rng.choice(INTERVALS)
+        sigma = 0.02 * math.sqrt(sec / 86400) * rng.choice([0.3, 1, 3])
+        xs = gen_series(rng, shape, n, sigma)
+        bs = gen_series(rng, "walk", n, sigma) if rng.random() < 0.6 else None
+        times = None
+        if rng.random() < 0.6:
+            t, times = 0, []
+            for _k in range(n):
+                times.append(t)
+                t += rng.choice([sec, sec, sec, 2 * sec, 7 * sec, max(1, sec // 3), rng.randint(1, 3 * sec)])
+        out.append({"fn": "perf", "xs": [repr(v) for v in xs], "bench": [repr(v) for v in bs] if bs is not None else None, "interval_s": sec,
+                    "rf": rng.choice([None, None, "0.0", "0.03", "0.1", "-0.01"]), "shape": shape, "decimal": rng.random() < 0.1, "times": times})
     return out
 
 
